@@ -3,8 +3,8 @@ package c05
 
 import (
 	"context"
-	"runtime"
 	"fmt"
+	"runtime"
 	"strings"
 	"sync"
 	"sync/atomic"
@@ -12,6 +12,7 @@ import (
 
 	"verif/fw"
 	"verif/gen"
+	"verif/mon"
 	"verif/sim"
 	"verif/trk"
 
@@ -249,7 +250,7 @@ func run(c *fw.Ctx, idx int) {
 				in.mode = api.PinModeDirect
 			}
 			pin.Mode = in.mode
-			pin.MaxDepth = in.mode.ToPinDepth()
+			pin.MaxDepth = mon.DepthOf(in.mode)
 			switch in.kind {
 			case "track-local":
 				pin.ReplicationFactorMin, pin.ReplicationFactorMax = 1, 2
